@@ -166,18 +166,22 @@ class QuadricTensor(ProjectiveTensor, ABC):
 
         if n == 3:
             b = adjugate(self.array)
-            i = np.argmax(np.abs(np.diagonal(b, axis1=-2, axis2=-1)), axis=-1)
-            beta = csqrt(-b[(*indices, i, i)])
-            p = -b[(*indices, slice(None), i)] / np.where(beta != 0, beta, -1)[..., None]
 
         else:
             # the matrix of all 2x2 minors (second compound matrix) of e*f^T + f*e^T is -m*m^T, where m contains
             # the entries of the skew symmetric matrix e*f^T - f*e^T, hence m can be recovered up to a common sign
             r = np.array([sorted(set(range(n)) - set(c)) for c in combinations(range(n), n - 2)])
             b = det(self.array[..., r[:, None, :, None], r[None, :, None, :]])
-            i = np.argmax(np.abs(np.diagonal(b, axis1=-2, axis2=-1)), axis=-1)
-            beta = csqrt(-b[(*indices, i, i)])
-            p = -b[(*indices, slice(None), i)] / np.where(beta != 0, beta, -1)[..., None]
+
+        i = np.argmax(np.abs(np.diagonal(b, axis1=-2, axis2=-1)), axis=-1)
+        b_ii = b[(*indices, i, i)]
+
+        # b vanishes for a double line/plane (a matrix of rank 1), dividing its rounding errors by the square root of
+        # a rounding error would make them arbitrarily large
+        scale = np.max(np.abs(self.array), axis=(-2, -1)) ** 2
+        nonzero = np.abs(b_ii) > EQ_TOL_ABS * scale
+        beta = np.where(nonzero, csqrt(-b_ii), 1)
+        p = np.where(nonzero[..., None], -b[(*indices, slice(None), i)] / beta[..., None], 0)
 
         # use the skew symmetric matrix m to get a matrix of rank 1 defining the same quadric
         m = hat_matrix(p)
